@@ -9,18 +9,25 @@ from collections import defaultdict
 
 @functools.lru_cache(maxsize=None)
 def norm(path):
-    """Strip generic-argument groups `::<...>` (and lifetimes) from a def path so that rules can
-    name functions independent of generic parameter spelling.  `<impl A for B>` and
-    `<T as Trait>` segments are kept (but their inner `::<..>` groups are stripped too)."""
+    """Strip generic-argument groups from a def path so that rules can name functions independent of
+    generic parameter spelling: `::<...>` groups and `Type<...>` groups (a `<` directly after an
+    identifier character).  Structural brackets `<impl A for B>` and `<T as Trait>` are kept."""
     if path is None:
         return None
     out = []
     i = 0
     n = len(path)
     while i < n:
+        strip = False
         if path.startswith("::<", i):
+            strip = True
+            j0 = i + 2
+        elif path[i] == "<" and i > 0 and (path[i - 1].isalnum() or path[i - 1] == "_"):
+            strip = True
+            j0 = i
+        if strip:
             depth = 0
-            j = i + 2
+            j = j0
             while j < n:
                 if path[j] == "<":
                     depth += 1
@@ -581,14 +588,21 @@ class Program:
             j = json.load(open(os.path.join(facts_dir, f)))
             tag = j["crate"] + (".bin" if j["is_bin"] else ".lib")
             self.crates[tag] = j
+            counts = defaultdict(int)
+            for bj in j["bodies"]:
+                counts[norm(bj["path"])] += 1
             for bj in j["bodies"]:
                 b = Body(bj, tag)
                 key = b.npath
+                if counts[key] > 1:
+                    # distinct bodies with equal normalised path (impls differing only in generic args):
+                    # keep the generic arguments, drop lifetimes
+                    key = re.sub(r"'[a-z_]+,? ?", "", b.path).replace("<>", "")
+                    b.npath = key
                 if j["is_bin"]:
                     key = "bin:" + key
                     b.npath = key
                 if key in self.bodies:
-                    # distinct bodies with equal normalised path (e.g. two impls differing only in generics)
                     n = 2
                     while "%s#%d" % (key, n) in self.bodies:
                         n += 1
@@ -683,7 +697,7 @@ class Program:
                     out.add(norm(op["closure"]))
         # zero-capture closures appear as locals of closure type without an aggregate
         for lc in body.locals:
-            if "closure" in lc:
+            if "closure" in lc and norm(lc["closure"]) != body.npath:
                 out.add(norm(lc["closure"]))
         return out
 
